@@ -69,8 +69,9 @@ def run(ctx):
     sites = list(FAMILY)
     sites += rng.sample(range(512), ctx.pick(6, 24))
     bases = sorted({s * 512 + r for s in sites for r in ROWS})
-    g = ctx.tlc("Launch_Gen", cfg="CONSTANTS\n  C04Pairs = {}\n  C07Bases = {%s}\nINIT Init\nNEXT Next\n" % ",".join(map(str, bases)),
-                timeout=600, count=False)
+    g, _, _ = lc.par(lambda: ctx.tlc("Launch_Gen", cfg="CONSTANTS\n  C04Pairs = {}\n  C07Bases = {%s}\nINIT Init\nNEXT Next\n" % ",".join(map(str, bases)),
+                                      timeout=600, count=False),
+                     lambda: ctx.build_vdrive("launch"), lambda: lc.build_probe(ctx))     # build while TLC generates
     ctx.tlc_ok("Launch_Gen", g)
     allc = ctx.read_ndjson(os.path.join(g.dir, "c07cases.ndjson"))
     allc.sort(key=lambda c: (c["fail"], c["idx"], c["cb"], c["s"], c["r"]))
